@@ -62,7 +62,8 @@ fn decode_inner(buf: &mut BytesMut) -> Result<Option<(RequestId, (Tag, Vec<Contr
     buf.advance(buf.len() - i.len());
     let tag = tag.clone();
     let mut tags = match tag
-        .match_id(Types::Sequence as u64)
+        .match_class(TagClass::Universal)
+        .and_then(|t| t.match_id(Types::Sequence as u64))
         .and_then(|t| t.expect_constructed())
     {
         Some(tags) => tags,
